@@ -1,21 +1,21 @@
 SPECIFICATION Spec
 CONSTANTS
-  Confs <- Shapes
-  InitRegs <- QuickRegs
+  Confs <- ReqShapes
+  InitRegs <- ReqRegs
   ScopeNames = {"a", "ab"}
   MaxScopeDepth = 2
   MaxStack = 2
   BindVals <- BV12
-  MaxBindings = 2
+  MaxBindings = 3
   Enabled = {"Bind", "EnterScope", "ExitScope"}
   NameOrder <- Names6
   HookUniverse = {}
   BindApis = {"tuple"}
   FreshConfs = {}
   ConstNames = {}
-  CallsWithReq = FALSE
+  CallsWithReq = TRUE
   DevKwEval = FALSE
 VIEW ViewStore
-INVARIANT C01_Deliver
-INVARIANT C01_NoLeak
+INVARIANT C10_Required
+INVARIANT C10_RegisterReject
 CHECK_DEADLOCK FALSE
